@@ -100,8 +100,10 @@ def rule_fmt(ctx: Ctx) -> RuleResult:
                       f.relpath, f.node.lineno)
     prefix, ndig = got
     # parsing uses the same prefix
-    splits = [n for n in own_nodes(f.node) if isinstance(n, ast.Call) and isinstance(n.func, ast.Attribute) and n.func.attr == "split"
-              and n.args and isinstance(n.args[0], ast.Constant) and n.args[0].value != "."]
+    from ..shape import family
+
+    splits = [n for g in family(ctx, f) for n in own_nodes(g.node) if isinstance(n, ast.Call) and isinstance(n.func, ast.Attribute)
+              and n.func.attr == "split" and n.args and isinstance(n.args[0], ast.Constant) and n.args[0].value != "."]
     if splits and all(s.args[0].value == prefix for s in splits):
         res.ok("NextGetter version parse", f"the number is what follows '{prefix}'")
     else:
@@ -114,8 +116,10 @@ def rule_fmt(ctx: Ctx) -> RuleResult:
     else:
         res.violation([NEXT, "increment"], "NextGetter does not increment the version number by exactly one", f.relpath, f.node.lineno)
     # no version -> starts from 0 (first version is 1); '*' / '>' -> the last existing one
-    zero = [d for d in flow.all_defs if d.var == "version" and isinstance(d.value, ast.Constant) and d.value.value == 0]
-    last = [n for n in own_nodes(f.node) if isinstance(n, ast.Call) and isinstance(n.func, ast.Attribute) and n.func.attr == "get_last"]
+    zero = [d for d in flow.all_defs if d.var == "version" and isinstance(d.value, ast.Constant) and d.value.value == 0] or [
+        r for g in family(ctx, f) for r in own_nodes(g.node) if isinstance(r, ast.Return) and isinstance(r.value, ast.Constant) and r.value.value == 0]
+    last = [n for g in family(ctx, f) for n in own_nodes(g.node) if isinstance(n, ast.Call) and isinstance(n.func, ast.Attribute)
+            and n.func.attr == "get_last"]
     if zero and last:
         res.ok("NextGetter start", "no version -> 0 + 1; '*' or '>' -> successor of get_last('version')")
     else:
@@ -149,11 +153,11 @@ def rule_fmt(ctx: Ctx) -> RuleResult:
     for r in _rets(f):
         v = r.value
         ok = _is_empty_sid(v)
-        if isinstance(v, ast.Name):
-            at = flow.node_of(r)
-            ds = flow.defs_reaching(at.id, v.id)
-            ok = bool(ds) and all(d.value is not None and isinstance(d.value, ast.BoolOp) and _is_empty_sid(d.value.values[-1])
-                                  and isinstance(d.value.values[0], ast.Call) and norm(d.value.values[0].func) == "_sid.get_with" for d in ds)
+        from ..shape import inline_locals
+
+        vv = inline_locals(f, v, r, depth=1) if isinstance(v, ast.Name) else v
+        if isinstance(vv, ast.BoolOp) and isinstance(vv.op, ast.Or):
+            ok = _is_empty_sid(vv.values[-1]) and isinstance(vv.values[0], ast.Call) and norm(vv.values[0].func) == "_sid.get_with"
         if ok:
             res.ok(f"NextGetter: `{norm(r)}`", "`_sid.get_with(version=...) or Sid()`: only the version changes; an invalid result becomes the empty Sid")
         else:
